@@ -34,6 +34,10 @@ class Obligation:
             s.add(z3.Not(self.goal))
         else:
             s.add(self.goal)
+        # A-LIBM: axiom instances for every libm application occurring in the query
+        from .special import libm_axioms
+        for ax in libm_axioms(list(self.hyps) + [self.goal]):
+            s.add(ax)
         # witness terms: their model values are reported under the name pvc!w!<key>
         for k, t in (self.meta.get("witness") or {}).items():
             s.add(z3.Const("pvc!w!" + k, t.sort()) == t)
@@ -59,11 +63,12 @@ class Sink:
 
 
 class LoopSpec:
-    def __init__(self, invariant, name=None, decreases=None, unfold=None, capture=None):
+    def __init__(self, invariant=None, name=None, decreases=None, unfold=None, capture=None, fill=False):
         self.invariant = invariant     # callable(V) -> list[(label, BoolRef)] or list[BoolRef]
         self.name = name
         self.unfold = unfold           # callable(V) -> list[BoolRef] (instances of spec-function definitions)
         self.capture = capture         # callable(ex, Vhead, Vend): custom obligations on one symbolic iteration
+        self.fill = fill               # loop is an instance of the fill schema (checked syntactically)
 
 
 class Contract:
@@ -71,7 +76,7 @@ class Contract:
                  ensures=None, modifies=(), loops=None, inline=False,
                  local_shapes=None, split=False, ghost=None, facts=None,
                  unroll_limit=200, use_contracts=(), scalars=None, notes="",
-                 tag="", fixed=None, after=None, hints=None):
+                 tag="", fixed=None, after=None, hints=None, macros=None, gen=None, interp=None, lib="phonopy"):
         self.file = file
         self.func = func
         self.shapes = shapes or {}
@@ -91,6 +96,10 @@ class Contract:
         self.fixed = fixed or {}
         self.after = after             # callable(ex, outs): extra obligations from the final states
         self.hints = hints             # callable(label, V) -> dict(backend=..., ...) for post obligations
+        self.macros = macros or {}     # macro name -> z3 symbol (floating literals spelled via that macro)
+        self.gen = gen                 # callable(random.Random) -> dict of concrete inputs (replay only)
+        self.interp = interp           # callable(harness, evaluator, env) -> {spec function name: python callable}
+        self.lib = lib
 
     def instance(self, tag=None, **fixed):
         import copy
